@@ -167,11 +167,21 @@ Definition model_agrees (c : ccase) : bool := model_imports (c_schema c) [] (c_i
    ok/err event per reader event looked at, ok exactly for the accepted records *)
 Definition gev_ok (g : gev) : bool := match g with GOk => true | _ => false end.
 
+(* the column types the oracle judges with: the table's own types when the destination columns
+   resolve in the schema (a wrong answer of Go's colDataTypes is then judged against the real
+   types, not trusted); only when the lookup fails - the driver then builds the configuration
+   from explicit types - the types Go reported having used *)
+Definition judged_types (sch : schema) (i : icase) : list coltype :=
+  match col_data_types sch (i_dst i) with
+  | Some ts => ts
+  | None => i_coltypes i
+  end.
+
 Fixpoint spec_imports (sch : schema) (before : list row) (is : list icase) : bool :=
   match is with
   | [] => true
   | i :: r =>
-      let c := mkCfg (i_coltypes i) (i_dst i) (i_src i) in
+      let c := mkCfg (judged_types sch i) (i_dst i) (i_src i) in
       let evs := until_stop (i_reader i) in
       (negb (no_panic c) ||
        (table_eqb (i_table i) (before ++ map (convert c sch) (accepted_records c sch evs)) &&
